@@ -14,7 +14,7 @@ LEVEL_TEXT = ("Static structural proof of necessary conditions: (R7.1) every nor
               "computed from the single adjustment (1 + header) computed in validate; (R7.3) in the closure of "
               "SpreadsheetValidator.validate no possibly-None conversion result is used arithmetically or "
               "dereferenced unguarded. Equality with string-level validation and shuffle invariance are NOT decided.")
-LEVEL_EXTRA = "Added after the seeded evaluation: (R7.4) the column-structure checks see the caller's table, not the onset-sorted copy; (R7.5) the onset pass maps back to file rows through original_index; (R7.6) a row is excluded from the row-level and temporal checks only under an error-severity test. (R7.7) no issue list is discarded inside the table-validation modules; (R7.8) a column assigned during assembly carries the frame's own index; (R7.9) index labels are never used as positions (or vice versa) in the validators and df_util, and the per-row mask is computed over the file's own rows. (R7.10) float()/int() of table cell text only inside a ValueError handler. (R7.11) push_error_context replaces a context value only when it is None, never on a truth test. R7.11 also covers every loop over (context type, value) pairs of the reporter."
+LEVEL_EXTRA = "Added after the seeded evaluation: (R7.4) the column-structure checks see the caller's table, not the onset-sorted copy; (R7.5) the onset pass maps back to file rows through original_index; (R7.6) a row is excluded from the row-level and temporal checks only under an error-severity test. (R7.7) no issue list is discarded inside the table-validation modules; (R7.8) a column assigned during assembly carries the frame's own index; (R7.9) index labels are never used as positions (or vice versa) in the validators and df_util, and the per-row mask is computed over the file's own rows. (R7.10) float()/int() of table cell text only inside a ValueError handler. (R7.11) push_error_context replaces a context value only when it is None, never on a truth test. R7.11 also covers every loop over (context type, value) pairs of the reporter. (R7.12) a parameter is handed on to every repository callee that takes a parameter of the same name (11 frozen exceptions package-wide)."
 
 FUNCS = ["validate", "_run_checks", "_run_onset_checks", "_validate_column_structure"]
 
@@ -327,6 +327,11 @@ def run(ctx):
                               "a header (and row 0, key '') is falsy, so issues of the first column lose their column label",
                               desc="context values not truth-tested")
     ctx.floor("R7.11", "loops over (context type, value) pairs in the reporter", n_pairs, 1)
+
+    # ---------------- R7.12: parameters are handed on to same-named parameters of repository callees
+    from sa.forward import check_forwarding
+    nfw = check_forwarding(ctx, "R7.12", [f for f in prog.functions.values() if f.module.name.startswith(('hed.validator.spreadsheet_validator', 'hed.models.base_input', 'hed.models.tabular_input', 'hed.models.spreadsheet_input'))], 'e.g. the error handler, the row adjustment, extra definitions')
+    ctx.floor("R7.12", "same-named parameter sites", nfw, 1)
 
 
 def _adj_locals(validate):
